@@ -299,6 +299,10 @@ def _run_case(case, ctx):
     if _has(spec, "matern", nu=0.5) or _has(spec, "pp"):
         # not smooth at r=0: sqrt of the rounding noise of a squared distance (grows with |x|/lengthscale: 4e-6 observed at l~0.05)
         tol = (2e-5, 1e-7) if case["regime"] == "small" else (1e-6, 1e-7)
+        # at coincident points the library's distance is sqrt(rounding noise of |x/l|^2) ~ 5e-8 |x|/l (not exactly 0 when a
+        # gradient is required) and these kernels have slope up to (D/2+q+1) there: scale the allowance with 1/lengthscale
+        lmin = min([float(mod.lengthscale.min()) for mod in kern.modules() if getattr(mod, "has_lengthscale", False) and mod.lengthscale is not None] or [1.0])
+        tol = (max(tol[0], 4e-7 * (d + 4) / max(lmin, 1e-3)), tol[1])
     if case["regime"] == "large" and (_has(spec, "poly") or _has(spec, "linear")):
         tol = (1e-8, 1e-7)
     if case["regime"] == "faraway":
@@ -311,6 +315,8 @@ def _run_case(case, ctx):
     cls = spec["k"] + ":" + path + (":default_f32" if case.get("default_f32") else "")
     if case.get("f32"):
         tol = (2e-5, 2e-4)
+        if _has(spec, "matern", nu=0.5) or _has(spec, "pp"):
+            tol = (2e-3, 2e-4)  # sqrt of the float32 rounding noise of a squared distance (3e-4) at coincident points
         cls = spec["k"] + ":f32"
         # the oracle reads the (float32) parameter values and works in float64
         kern_ref = __import__("copy").deepcopy(kern).double()
